@@ -31,7 +31,14 @@
 //! Every failing outcome is classified (`Finding.class`); a case is excluded exactly when its class
 //! is an open entry (so any other failure, also on the same key, is still a violation).
 //!
-//! Sensitivity probes: PROBES-PLACEHOLDER
+//! Sensitivity probes (tools/mutrun, quick tier; patches under harness/crates/vf-tree/probes/):
+//! * p1-vec-flag-after-jump+spill-display.diff, hunk 2 — `Display for SpillCompression` prints `lz4`
+//!   for `Lz4Frame` while `FromStr` only knows `lz4_frame` (DESIGN probe "Display prints a spelling
+//!   set() does not parse back"): c43a VIOLATION after 4288 evaluations (4.8 s): "after
+//!   set(spill_compression, lz4_frame) the configuration reports "lz4", which set() rejects".
+//! * the three open findings above are themselves instances of DESIGN's third probe ("partial update
+//!   before a parse error") present in the unchanged tree; the check found them within the first 30
+//!   evaluations.
 use datafusion::common::config::{ConfigFileType, ConfigOptions, TableOptions};
 use proptest::prelude::*;
 use serde::{Deserialize, Serialize};
@@ -423,7 +430,7 @@ impl Property for C43a {
         (target, base, any::<u16>(), val_strategy(), prop::bool::weighted(0.03)).prop_map(|(target, base, key, value, sweep)| Case { target, base, key, value, sweep }).boxed()
     }
     fn budget(&self, tier: Tier) -> Budget {
-        Budget::new(tier.pick(60_000, 3_000_000), tier.pick(8, 16)).min_nontrivial(tier.pick(2_000, 50_000))
+        Budget::new(tier.pick(40_000, 3_000_000), tier.pick(8, 16)).min_nontrivial(tier.pick(2_000, 50_000))
     }
     fn rule(&self) -> String {
         "target (ConfigOptions / TableOptions with CSV, Parquet or JSON selected) x random base configuration (0-3 resp. 0-11 prior sets) x one key out of ALL keys entries() lists (+ column-specific \
